@@ -148,6 +148,7 @@ type Explorer struct {
 	Edges     int
 	Aborted   bool
 	escAlloc  map[*ssa.Alloc]bool
+	escFrom   map[*ssa.Alloc]map[*ssa.BasicBlock]bool // blocks at or after a point where the alloc's address escapes
 	// track: keys worth remembering when a branch on an unknown condition is
 	// taken (tested at least twice, or flowing into a phi). Everything else is
 	// explored path-insensitively, which keeps the state space small.
@@ -224,14 +225,37 @@ func NewExplorer(p *Prog, fn *ssa.Function, h Hooks) *Explorer {
 				continue
 			}
 			for _, ref := range *a.Referrers() {
+				esc := false
 				switch r := ref.(type) {
 				case *ssa.Store:
 					if r.Val == a {
-						x.escAlloc[a] = true
+						esc = true
 					}
 				case *ssa.UnOp, *ssa.FieldAddr, *ssa.IndexAddr, *ssa.DebugRef:
 				default:
+					esc = true
+				}
+				if esc {
 					x.escAlloc[a] = true
+					if x.escFrom == nil {
+						x.escFrom = map[*ssa.Alloc]map[*ssa.BasicBlock]bool{}
+					}
+					m := x.escFrom[a]
+					if m == nil {
+						m = map[*ssa.BasicBlock]bool{}
+						x.escFrom[a] = m
+					}
+					// the escaping instruction's block and everything reachable from it
+					stack := []*ssa.BasicBlock{ref.Block()}
+					for len(stack) > 0 {
+						bb := stack[len(stack)-1]
+						stack = stack[:len(stack)-1]
+						if m[bb] {
+							continue
+						}
+						m[bb] = true
+						stack = append(stack, bb.Succs...)
+					}
 				}
 			}
 		}
@@ -290,6 +314,10 @@ func (x *Explorer) evalKeys(v ssa.Value, depth int) []string {
 	case *ssa.UnOp:
 		if v.Op == token.NOT {
 			out = append(out, x.evalKeys(v.X, depth+1)...)
+		}
+		if v.Op == token.MUL && x.unstableLoad(v) {
+			// the register takes its value from the memory cell when the load executes
+			out = append(out, "*("+x.Canon(v.X)+")")
 		}
 	case *ssa.BinOp:
 		switch v.Op {
@@ -1201,6 +1229,19 @@ func (x *Explorer) enter(st *State, from, to *ssa.BasicBlock) {
 // effect applies the memory effect of an instruction to the facts.
 func (x *Explorer) effect(st *State, in ssa.Instruction) {
 	switch in := in.(type) {
+	case *ssa.Alloc:
+		// a new variable holds its zero value
+		if pt, ok := in.Type().Underlying().(*types.Pointer); ok {
+			key := "*(" + x.Canon(in) + ")"
+			if x.allowed(key) {
+				switch {
+				case isBool(pt.Elem()) || nilable(pt.Elem()):
+					st.facts[key] = False
+				case isIntType(pt.Elem()):
+					st.ints[key] = 0
+				}
+			}
+		}
 	case *ssa.UnOp:
 		if in.Op == token.MUL && x.unstableLoad(in) {
 			mem := "*(" + x.Canon(in.X) + ")"
@@ -1313,7 +1354,14 @@ func (x *Explorer) killEscapedAllocs(st *State) {
 	}
 	var toks []string
 	for a := range x.escAlloc {
+		// nobody else can hold the address before the point where it escapes
+		if st.blk != nil && !x.escFrom[a][st.blk] {
+			continue
+		}
 		toks = append(toks, "*(alloc"+x.tok(a)+")")
+	}
+	if len(toks) == 0 {
+		return
 	}
 	for k := range st.facts {
 		for _, t := range toks {
@@ -1654,4 +1702,9 @@ func mayHoldModuleCode(t types.Type, depth int) bool {
 		}
 	}
 	return false
+}
+
+func isIntType(t types.Type) bool {
+	b, ok := t.Underlying().(*types.Basic)
+	return ok && b.Info()&types.IsInteger != 0
 }
